@@ -1,33 +1,104 @@
-(* C08 — meaning-preserving grammar rewrites leave every parse result unchanged.
-   INTERIM: the facts the six rewrites rest on, for the reference semantics: a failed attempt
-   leaves no trace (a choice continues from the caller's own state), predicates leave the state
-   untouched, and an untagged group is its content. The general congruence (any context, any
-   combination) is decided differentially on the bundled grammars on every run; its Coq proof
-   (SpecEquiv.v) is the planned strengthening. *)
+(* C08 — meaning-preserving grammar rewrites leave every parse result unchanged (statements;
+   proofs in SpecEquiv.v). `sem_eq g e1 e2`: in every context and state, e1 and e2 have the
+   same result up to the furthest-failure tracker (success/failure, final position, stack, tags
+   and the pairs produced; Err preserved). *)
 From Coq Require Import List NArith.
 Import ListNotations.
-From PP Require Import Base Syntax Spec SpecMono SpecLaws.
+From PP Require Import Base Syntax Spec SpecSyn SpecMono SpecLaws SpecEquiv.
 
-(* redundant parentheses *)
-Theorem C08_group_id : forall g f c e s, run g (S f) c (TEval (EGrp e None)) s = run g f c (TEval e) s.
-Proof. intros. cbn [run push_tag pop_tag]. destruct (run g f c (TEval e) s); reflexivity. Qed.
+(* the failure tracker never influences the result: an abandoned attempt leaves no trace that
+   matters *)
+Theorem C08_tracker_irrelevant : forall g f c t s1 s2, same_core s1 s2 ->
+  core (run g f c t s1) = core (run g f c t s2).
+Proof. exact trk_irrelevant. Qed.
 
-(* e | ...: when the first alternative fails the rest is evaluated from the same position,
-   stack and pending tags *)
-Theorem C08_failed_alternative_leaves_no_trace : forall g c e1 es s t r,
-  evals g c e1 s (Fail t) -> evals g c (EAlt es) (set_trk s t) r -> evals g c (EAlt (e1 :: es)) s r.
-Proof. exact choice_backtracks. Qed.
-Theorem C08_first_alternative_wins : forall g c e1 es s s1 p,
-  evals g c e1 s (Ok s1 p) -> evals g c (EAlt (e1 :: es)) s (Ok s1 p).
-Proof. exact choice_commits. Qed.
+(* 1. redundant parentheses *)
+Theorem C08_group_id : forall g e, sem_eq g (EGrp e None) e.
+Proof. exact group_id. Qed.
 
-(* !e ~ NEVER: the predicate leaves the state untouched *)
-Theorem C08_predicate_leaves_no_trace : forall g c e s s1 p,
-  evals g c (ENot e) s (Ok s1 p) ->
-  p = [] /\ s_pos s1 = s_pos s /\ s_rest s1 = s_rest s /\ s_stk s1 = s_stk s /\ s_tags s1 = s_tags s.
-Proof. exact not_consumes_nothing. Qed.
+(* 2. re-associating nested sequences and choices *)
+Theorem C08_seq_assoc : forall g a b, b <> [] ->
+  sem_eq g (ESeq (a ++ [EGrp (ESeq b) None])) (ESeq (a ++ b)).
+Proof. exact seq_assoc_group. Qed.
+Theorem C08_alt_assoc : forall g a b, sem_eq g (EAlt (a ++ [EGrp (EAlt b) None])) (EAlt (a ++ b)).
+Proof. exact alt_assoc_group. Qed.
 
+(* 3. extracting a sub-expression into a fresh silent rule: the extended grammar behaves like the
+   old one on everything that does not mention the new name, and a reference to the new rule
+   behaves like the extracted expression *)
+Theorem C08_extract_silent : forall g n e, lookup g n = None -> is_trivia_name n = false ->
+  all_grammar (fun x => match x with ERef m _ => negb (N.eqb m n) | _ => true end) g = true ->
+  all_sub (fun x => match x with ERef m _ => negb (N.eqb m n) | _ => true end) e = true ->
+  let g' := g ++ [{| r_name := n; r_silent := true; r_kind := KNormal; r_body := e |}] in
+  (forall t, all_task (fun x => match x with ERef m _ => negb (N.eqb m n) | _ => true end) t = true ->
+     forall f c s, core (run g' f c t s) = core (run g f c t s)) /\
+  (forall c s r, evals g c e s r -> exists r', evals g' c (ERef n None) s r' /\ core r' = core r) /\
+  (forall c s r, evals g' c (ERef n None) s r -> exists r', evals g c e s r' /\ core r' = core r).
+Proof. exact extract_silent. Qed.
+
+(* 4. e -> (e | e) *)
+Theorem C08_dup_choice : forall g e, sem_eq g (EGrp (EAlt [e; e]) None) e.
+Proof. exact dup_choice. Qed.
+
+(* 5./6. e -> ((e ~ NEVER) | e)  and  e -> ((!e ~ NEVER) | e), NEVER a literal that cannot occur in
+   the input; the implicit skip between e and NEVER must itself have a result (it always has
+   when the trivia rules are well-formed, and trivially when there are none) *)
+Theorem C08_never_choice : forall g input e lit, never_in lit input -> skip_total_on g input ->
+  sem_eq_on g input (EGrp (EAlt [ESeq [e; EStr lit]; e]) None) e.
+Proof. exact never_choice_on. Qed.
+Theorem C08_negnever_choice : forall g input e lit, never_in lit input -> skip_total_on g input ->
+  sem_eq_on g input (EGrp (EAlt [ESeq [ENot e; EStr lit]; e]) None) e.
+Proof. exact negnever_choice_on. Qed.
+Theorem C08_skip_total_without_trivia : forall g input, has_ws g = false -> has_cm g = false -> skip_total_on g input.
+Proof. exact skip_total_no_trivia. Qed.
+
+(* at any nesting, singly or in any combination: sem_eq is a congruence for every constructor *)
+Theorem C08_cong_seq : forall g es es', Forall2 (sem_eq g) es es' -> sem_eq g (ESeq es) (ESeq es').
+Proof. exact cong_seq. Qed.
+Theorem C08_cong_alt : forall g es es', Forall2 (sem_eq g) es es' -> sem_eq g (EAlt es) (EAlt es').
+Proof. exact cong_alt. Qed.
+Theorem C08_cong_opt : forall g e e', sem_eq g e e' -> sem_eq g (EOpt e) (EOpt e').
+Proof. exact cong_opt. Qed.
+Theorem C08_cong_star : forall g e e', sem_eq g e e' -> sem_eq g (EStar e) (EStar e').
+Proof. exact cong_star. Qed.
+Theorem C08_cong_plus : forall g e e', sem_eq g e e' -> sem_eq g (EPlus e) (EPlus e').
+Proof. exact cong_plus. Qed.
+Theorem C08_cong_repn : forall g n e e', sem_eq g e e' -> sem_eq g (ERepN e n) (ERepN e' n).
+Proof. exact cong_repn. Qed.
+Theorem C08_cong_repmin : forall g n e e', sem_eq g e e' -> sem_eq g (ERepMin e n) (ERepMin e' n).
+Proof. exact cong_repmin. Qed.
+Theorem C08_cong_repmax : forall g n e e', sem_eq g e e' -> sem_eq g (ERepMax e n) (ERepMax e' n).
+Proof. exact cong_repmax. Qed.
+Theorem C08_cong_repminmax : forall g m n e e', sem_eq g e e' -> sem_eq g (ERepMinMax e m n) (ERepMinMax e' m n).
+Proof. exact cong_repminmax. Qed.
+Theorem C08_cong_and : forall g e e', sem_eq g e e' -> sem_eq g (EAnd e) (EAnd e').
+Proof. exact cong_and. Qed.
+Theorem C08_cong_not : forall g e e', sem_eq g e e' -> sem_eq g (ENot e) (ENot e').
+Proof. exact cong_not. Qed.
+Theorem C08_cong_grp : forall g tag e e', sem_eq g e e' -> sem_eq g (EGrp e tag) (EGrp e' tag).
+Proof. exact cong_grp. Qed.
+Theorem C08_cong_push : forall g e e', sem_eq g e e' -> sem_eq g (EPush e) (EPush e').
+Proof. exact cong_push. Qed.
+
+Print Assumptions C08_tracker_irrelevant.
 Print Assumptions C08_group_id.
-Print Assumptions C08_failed_alternative_leaves_no_trace.
-Print Assumptions C08_first_alternative_wins.
-Print Assumptions C08_predicate_leaves_no_trace.
+Print Assumptions C08_seq_assoc.
+Print Assumptions C08_alt_assoc.
+Print Assumptions C08_extract_silent.
+Print Assumptions C08_dup_choice.
+Print Assumptions C08_never_choice.
+Print Assumptions C08_negnever_choice.
+Print Assumptions C08_skip_total_without_trivia.
+Print Assumptions C08_cong_seq.
+Print Assumptions C08_cong_alt.
+Print Assumptions C08_cong_opt.
+Print Assumptions C08_cong_star.
+Print Assumptions C08_cong_plus.
+Print Assumptions C08_cong_repn.
+Print Assumptions C08_cong_repmin.
+Print Assumptions C08_cong_repmax.
+Print Assumptions C08_cong_repminmax.
+Print Assumptions C08_cong_and.
+Print Assumptions C08_cong_not.
+Print Assumptions C08_cong_grp.
+Print Assumptions C08_cong_push.
